@@ -130,6 +130,33 @@ type captureFormat struct {
 	slots map[int]*[]string
 	// full mode: the forms of every message of the datagram, held uncopied until the datagram is done
 	held []*formed
+	// … and across the next datagram: the records of the previous datagram (an asynchronous transport such as the Kafka
+	// producer still holds them when the next datagram is formatted) with copies taken when they were produced
+	prev     []*formed
+	prevSnap [][4][]byte
+}
+
+// stale: how many byte slices handed out for the previous datagram have changed since
+func (c *captureFormat) stale() int {
+	n := 0
+	for i, f := range c.prev {
+		cur := [4][]byte{f.js, f.tx, f.bin, f.ky}
+		for k := 0; k < 4; k++ {
+			if !bytes.Equal(cur[k], c.prevSnap[i][k]) {
+				n++
+			}
+		}
+	}
+	return n
+}
+
+// roll: the datagram is done — its records become the "previous" ones
+func (c *captureFormat) roll() {
+	c.prev = c.held
+	c.prevSnap = nil
+	for _, f := range c.prev {
+		c.prevSnap = append(c.prevSnap, [4][]byte{append([]byte(nil), f.js...), append([]byte(nil), f.tx...), append([]byte(nil), f.bin...), append([]byte(nil), f.ky...)})
+	}
 }
 
 const heldMark = "\x00held "
@@ -372,6 +399,12 @@ func opPkt(st *state, args []string) []string {
 			res += " # " + strings.ReplaceAll(err.Error(), "\n", " | ")
 		}
 		lines = append([]string{res}, pe.cap.resolve(pe.cap.lines)...)
+		if pe.cap.full {
+			if n := pe.cap.stale(); n > 0 {
+				lines = append(lines, fmt.Sprintf("held-changed %d", n))
+			}
+			pe.cap.roll()
+		}
 	}()
 	return lines
 }
